@@ -46,11 +46,17 @@ def run_main(file, cmd, ev, mod, flags):
         def parse_args(self):
             return args
 
+        def parse_known_args(self):
+            log.append(("parse_known_args",))
+            return args, ["extra_positional.py"]       # argparse would have rejected this with a usage error
+
         def error(self, msg):
             raise UsageError(msg)
     ns["parser"] = Parser()
     ns["pvhook_compile"] = lambda src, fn, mode: ("CODE", src, fn, mode)
-    ns["pvhook_eval"] = lambda s, env: ("EVAL", s)
+    class EvalStr(str):
+        """the program text an -e expression evaluates to (kept by identity: nothing may rewrite it)"""
+    ns["pvhook_eval"] = lambda s, env: EvalStr("EVALUATED:" + s)
 
     class CD:
         def __init__(self, of, normalized=False):
@@ -116,6 +122,8 @@ def h_main(ctx, cfg):
                 ctx.prove("main.no_unexpected_exception", z3.BoolVal(False), detail="%s: %s for %r %r" % (type(e).__name__, e, (file, cmd, ev, mod), flags))
                 continue
             case = "sources=%r" % ([v for v in (file, cmd, ev, mod)],)
+            if ("parse_known_args",) in log and outcome == "ok":
+                ctx.prove("unrecognised_arguments_are_never_silently_dropped", z3.BoolVal(False), detail=case)
             if sum(given) != 1:
                 ctx.prove("usage_error_iff_not_exactly_one_source_given", z3.BoolVal(outcome == "usage" and not [e for e in log if e[0] == "print"]), detail=case)
                 continue
@@ -128,12 +136,13 @@ def h_main(ctx, cfg):
             if cmd is not None:
                 want = ("CODE", cmd.replace("\\n", "\n"), "<string>", "exec")
             elif ev is not None:
-                want = ("CODE", ("EVAL", ev), "<string>", "exec")
+                want = ("CODE", "EVALUATED:" + ev, "<string>", "exec")
             elif file is not None:
                 want = ("CODE", file, "prog.py", "exec")
             else:
                 want = ("MODCODE", mod)
             ctx.prove("the_decoded_code_is_the_given_program_compiled_in_exec_mode", z3.BoolVal(code == want), detail="%r vs %r" % (code, want))
+            ctx.prove("unrecognised_arguments_are_never_silently_dropped", z3.BoolVal(("parse_known_args",) not in log))
             prints = [e[1] for e in log if e[0] == "print"]
             cds = [p for p in prints if hasattr(p, "normalized")]
             ctx.prove("prints_exactly_one_CodeData", z3.BoolVal(len(cds) == 1))
